@@ -49,7 +49,7 @@ def main():
             na.append({"property_id": pid, "reason": NOT_YET.get(pid, "not claimed yet: model/theorems/correspondence for this property are still being built (see DESIGN.md §5); no check is registered until it is sound")})
     m = {
         "version": 1,
-        "setup_cmd": "python3 tools/extract.py && python3 tools/gen_lean_index.py && cd lean && lake build OptiVerif driver",
+        "setup_cmd": "python3 tools/setup.py",
         "hooks": {
             "guard": "OPTICOMLIB_VERIF",
             "enable": "no source hooks: all instrumentation (spies on numpy.random/scipy/sklearn, fake VISA session) is installed from the harness process; the variable is set by harness/check.py but read by nothing in /repo",
